@@ -85,7 +85,7 @@ func runC10(c *Ctx) {
 	})
 	// R15: a mutex taken anywhere in the repository's non-test code is released on every exit of the function that took
 	// it — a failed step of a rotation must not leave the authority (or a key manager) locked for the next attempt.
-	// (none on the present tree: seed C10-12, run in the thorough tier, must fire)
+	// (none on the present tree: the canary mutant C10-manifest-lock-leaked-on-read-error must fire)
 	{
 		var all []*ssa.Function
 		for _, f := range c.P.RepoFunctions() {
